@@ -606,6 +606,46 @@ def r4_bounds(repo, report):
                             feas = True
                 if feas:
                     bad.append((what + " is possible at the scan", {"start": start.key(), "stop": stop.key(), "path": r.describe()["valuation"]}))
+    # ---- no window that overlaps the read is skipped (the finder answers like str.find(kmer, start, stop)) ----
+    def sat(val, constraints):
+        """is there an integer model of the path condition plus  sign(form) in allowed  for every (form, allowed)?"""
+        def rec(i, v):
+            if i == len(constraints):
+                return feasible(v, box=3, max_atoms=6)
+            form, allowed = constraints[i]
+            if form.is_const():
+                sg = (form.const > 0) - (form.const < 0)
+                return sg in allowed and rec(i + 1, v)
+            p_, flipped = form.normalised_sign_form()
+            k_ = "sign:" + p_.key()
+            register_lin(k_, p_)
+            for sg in allowed:
+                sv = -sg if flipped else sg
+                if k_ in v and v[k_] != sv:
+                    continue
+                v2 = dict(v)
+                v2[k_] = sv
+                if rec(i + 1, v2):
+                    return True
+            return False
+        return rec(0, dict(val))
+
+    LA, LB, LL = Lin.atom(A), Lin.atom(B), Lin.atom("L")
+    skipped_nonempty = []
+    n_skip = 0
+    for r in rows:
+        if any(e[0] == "scan" for e in r.effects) or r.exit[0] not in ("continue", "fall"):
+            continue
+        n_skip += 1
+        # the window the entry describes, before clamping: [s0, e0) with negative positions counted from the end, stop 0 = end
+        for sa_, s0 in ((-1, LL + LA), (0, LA), (1, LA)):
+            for sb_, e0 in ((-1, LL + LB), (0, LL), (1, LB)):
+                cons = [(LA, (sa_,)), (LB, (sb_,)), (LL, (0, 1)), (e0 - s0, (1,)), (e0, (1,)), (LL - s0, (1,)), (LL, (1,))]
+                if sat(r.valuation, cons):
+                    skipped_nonempty.append({"start": "negative" if sa_ < 0 else "non-negative", "stop": {-1: "negative", 0: "0 (end)", 1: "positive"}[sb_], "path": r.describe()["valuation"]})
+    report.ob("C07.R4", "kmers_present: no window that overlaps the read is skipped", not skipped_nonempty and n_skip >= 1, facts={"skipping_paths": n_skip, "problems": [str(x)[:300] for x in skipped_nonempty[:2]]},
+              expected="an entry is skipped only if [start, stop) (negative = from the end, 0 = end) does not intersect [0, len(sequence))", loc=repo.loc(lp), cases=n_skip,
+              why=("an entry whose window overlaps the read is skipped: " + str(skipped_nonempty[0])[:200]) if skipped_nonempty else "")
     report.ob("C07.R4", "kmers_present: scanned window lies inside the read", not bad and n_scan >= 1, facts={"paths": len(rows), "scans": n_scan, "problems": [str(b)[:300] for b in bad[:2]]},
               expected="0 <= start and stop <= len(sequence) at every call of the scanning routine", loc=repo.loc(lp), cases=len(rows), fact_key="stop-not-clamped" if bad and all("stop >" in b[0] for b in bad) else None,
               why=(bad[0][0] + ": " + str(bad[0][1])[:200]) if bad else "")
